@@ -1465,6 +1465,16 @@ fn child_main(seed: u64, domain: Domain, lo: usize, hi: usize, file: &Path, n_se
                         } else {
                             let mut rng = case_rng(seed ^ 0x5EED, domain, idx);
                             let heavy = sl >= HEAVY_SLIDER_MS;
+                            // both stacking passes on the osu! objects of this map vs the Lean model
+                            #[cfg(feature = "p05m")]
+                            if !checked_profile() && !heavy && map.mode == GameMode::Osu {
+                                let thr = [840.0, 0.0, 1.0e9, 150.0, 1260.0][idx % 5];
+                                if let Some(ls) = rec.call("osu-stacking-probe", || crate::c05_models::stk_lines_of_map(&map, thr)) {
+                                    for (req, obs) in ls {
+                                        let _ = writeln!(out, "M\t{idx}\t{req}\t{obs}");
+                                    }
+                                }
+                            }
                             exercise(&map, &mut rng, domain, &mut rec, n_settings, heavy, case.kind.ends_with("witness-sections").then_some(0.01));
                             if heavy {
                                 "exercised-light"
@@ -1838,6 +1848,9 @@ fn digest(run: &mut Run, seed: u64, domain: Domain, lines: &[String], label: &st
                 run.count(&format!("{label}model:{tag} lines from searched maps"));
                 if tag == "SUSP" {
                     run.count(&format!("{label}model:SUSP searched verdict:{}", f[3]));
+                }
+                if tag == "STK" && f[3].split(',').any(|h| h != "0" && h != "e") {
+                    run.count(&format!("{label}model:STK searched maps with non-zero heights"));
                 }
                 run.line(&format!("{label}{}:{idx}", domain.name()), f[2].to_owned(), f[3].to_owned());
             }
